@@ -59,13 +59,13 @@ def library_contract(matcls, name, od, T0, T1, T2, known_refusal=None):
     """C03 for a Circle of a real library material: factor relative to the input temperature, od = cold x factor, area ~
     factor^2, N x area conserved by setTemperature, end state independent of the intermediate temperature.
     Component.getThermalExpansionFactor must not refuse (RuntimeError) anywhere in the range - the property text.  For
-    TZM, Zr, UraniumOxide the strict lemma is REFUTED (pending/C03_library_finding.py); here `known_refusal(Ta, Tb)`
-    delimits that known finding (the only temperature pairs where a refusal is tolerated): everywhere else the lemma
-    is strict, and a refusal happens only when the correlation gives the same dL/L at two different temperatures"""
-    assume(od > 0)
+    TZM, Zr, UraniumOxide the strict lemma WAS refuted (F253, C03_library_finding.py) and `known_refusal(Ta, Tb)` delimited
+    the temperature pairs where a refusal was tolerated; since the repair (/repo df52c28) every lemma below is STRICT
+    (no `known_refusal` is passed any more): no refusal anywhere in the range."""
+    assume(od >= 0)  # (P) a dimension is not negative; zero allowed
     assert matcls.linearExpansionFactor is Material.linearExpansionFactor, "the class goes through Material.linearExpansionFactor"
     assert matcls.getThermalExpansionDensityReduction is Material.getThermalExpansionDensityReduction
-    c = circle_of(matcls, name, od, T0, T1, 0.02)
+    c = circle_of(matcls, name, od, T0, T1, 0.02 if NATIVE else sym_real("nd"))  # ANY number density
     m = c.material
     P0, P1, P2 = m.linearExpansionPercent(Tc=T0), m.linearExpansionPercent(Tc=T1), m.linearExpansionPercent(Tc=T2)
     assert P0 > -100 and P1 > -100 and P2 > -100, "the hypothesis of the abstract C03 lemmas holds on the stated range"
@@ -120,42 +120,42 @@ Inconel600 = repo("armi.materials.inconel600:Inconel600")
 B4C = repo("armi.materials.b4c:B4C")
 
 
-@lemma(gen={"od": (0.5, 3.0), "T0": (20.0, 700.0), "T1": (20.0, 700.0), "T2": (20.0, 700.0)})
+@lemma(gen={"od": (0.0, 3.0), "T0": (19.85, 776.85), "T1": (19.85, 776.85), "T2": (19.85, 776.85)})
 def ht9_circle(od: float, T0: float, T1: float, T2: float):
     """HT9 (cubic), all T0, T1, T2 in [293, 1050] K"""
     in_range(HT9, "linear expansion", "K", T0, T1, T2)
     library_contract(HT9, "HT9", od, T0, T1, T2)
 
 
-@lemma(gen={"od": (0.5, 3.0), "T0": (20.0, 700.0), "T1": (20.0, 700.0), "T2": (20.0, 700.0)})
+@lemma(gen={"od": (0.0, 3.0), "T0": (-273.15, 1200.0), "T1": (-273.15, 1200.0), "T2": (-273.15, 1200.0)})
 def uzr_circle(od: float, T0: float, T1: float, T2: float):
     """UZr (cubic, no stated range): all T0, T1, T2 >= -273.15 C"""
     assume(T0 >= -K0 and T1 >= -K0 and T2 >= -K0)
     library_contract(UZr, "UZr", od, T0, T1, T2)
 
 
-@lemma(gen={"od": (0.5, 3.0), "T0": (20.0, 1500.0), "T1": (20.0, 1500.0)})
+@lemma(gen={"od": (0.5, 3.0), "T0": (19.85, 1526.85), "T1": (19.85, 1526.85)})
 def zr_circle_built_hot(od: float, T0: float, T1: float):
     """Zr (two cubics with a contraction at the 1137 K phase change), all T0, T1 in [293, 1800] K, every combination of
-    pieces: input temperature T0, built and kept at T1; strict except across the phase change, where two temperatures can have the
-    same dL/L (finding).  (Split in two lemmas, like UraniumOxide, to keep each short.)"""
+    pieces: input temperature T0, built and kept at T1; strict, also across the phase change, where two temperatures can have the
+    same dL/L (was finding F253).  (Split in two lemmas, like UraniumOxide, to keep each short.)"""
     in_range(Zr, "linear expansion percent", "K", T0, T1)
-    library_contract(Zr, "Zr", od, T0, T1, T1, zr_known)
+    library_contract(Zr, "Zr", od, T0, T1, T1)
 
 
-@lemma(gen={"od": (0.5, 3.0), "T0": (20.0, 1500.0), "T2": (20.0, 1500.0)})
+@lemma(gen={"od": (0.5, 3.0), "T0": (19.85, 1526.85), "T2": (19.85, 1526.85)})
 def zr_circle_heated(od: float, T0: float, T2: float):
     """Zr: built at its input temperature T0 and heated to T2, all T0, T2 in [293, 1800] K"""
     in_range(Zr, "linear expansion percent", "K", T0, T2)
-    library_contract(Zr, "Zr", od, T0, T0, T2, zr_known)
+    library_contract(Zr, "Zr", od, T0, T0, T2)
 
 
 @lemma(gen={"od": (0.5, 3.0), "T0": (21.11, 1382.22), "T1": (21.11, 1382.22), "T2": (21.11, 1382.22)})
 def tzm_circle(od: float, T0: float, T1: float, T2: float):
-    """TZM (np.interp over an 11-point table), all T0, T1, T2 in [21.11, 1382.22] C; strict except on the flat table segment
-    840.56 .. 846.11 C (finding)"""
+    """TZM (np.interp over an 11-point table), all T0, T1, T2 in [21.11, 1382.22] C; strict, also on the flat table segment
+    840.56 .. 846.11 C (was finding F253)"""
     in_range(TZM, "linear expansion percent", "C", T0, T1, T2)
-    library_contract(TZM, "TZM", od, T0, T1, T2, tzm_known)
+    library_contract(TZM, "TZM", od, T0, T1, T2)
 
 
 @lemma(gen={"od": (0.5, 3.0), "T0": (21.0, 900.0), "T1": (21.0, 900.0), "T2": (21.0, 900.0)})
@@ -198,19 +198,19 @@ def nacl_circle_heated(od: float, T0: float, T2: float):
     library_contract(NaCl, "NaCl", od, T0, T0, T2)
 
 
-@lemma(gen={"od": (0.5, 3.0), "T0": (20.0, 2800.0), "T1": (20.0, 2800.0)}, overrides=OV)
+@lemma(gen={"od": (0.5, 3.0), "T0": (-0.15, 2849.85), "T1": (-0.15, 2849.85)}, overrides=OV)
 def uranium_oxide_circle_built_hot(od: float, T0: float, T1: float):
     """UraniumOxide (two cubics switching at 923 K; SimpleSolid AND FuelMaterial), all T0, T1 in [273, 3123] K, every
-    combination of pieces: a component with input temperature T0 built at T1, then kept at T1; strict except across 923 K: the high
+    combination of pieces: a component with input temperature T0 built at T1, then kept at T1; strict, also across 923 K: the high
     piece starts 1.1e-3 percentage points BELOW the end of the low piece, so temperatures just above 923 K tie with
-    temperatures just below (finding, real-number only).  Collaborator: nuclide directory = TABLE (constructor's
+    temperatures just below (was finding F253, real-number only).  Collaborator: nuclide directory = TABLE (constructor's
     composition only).  (Split in two lemmas to keep each short.)"""
     in_range(UraniumOxide, "linear expansion percent", "K", T0, T1)
-    library_contract(UraniumOxide, "UraniumOxide", od, T0, T1, T1, uo2_known)
+    library_contract(UraniumOxide, "UraniumOxide", od, T0, T1, T1)
 
 
-@lemma(gen={"od": (0.5, 3.0), "T0": (20.0, 2800.0), "T2": (20.0, 2800.0)}, overrides=OV)
+@lemma(gen={"od": (0.5, 3.0), "T0": (-0.15, 2849.85), "T2": (-0.15, 2849.85)}, overrides=OV)
 def uranium_oxide_circle_heated(od: float, T0: float, T2: float):
     """UraniumOxide: a component built at its input temperature T0 and heated to T2, all T0, T2 in [273, 3123] K"""
     in_range(UraniumOxide, "linear expansion percent", "K", T0, T2)
-    library_contract(UraniumOxide, "UraniumOxide", od, T0, T0, T2, uo2_known)
+    library_contract(UraniumOxide, "UraniumOxide", od, T0, T0, T2)
